@@ -72,10 +72,9 @@ func init() {
 			fl := []J{}
 			for i, f := range fields {
 				ts := types.TypeString(f.Type(), func(p *types.Package) string { return "" })
-				if _, isIface := f.Type().Underlying().(*types.Interface); isIface {
-					// distinct named interface types with the same method set have the same representation
-					ts = types.TypeString(f.Type().Underlying(), func(p *types.Package) string { return "" })
-				}
+				// distinct named interface types with the same method set have the same memory layout, but NOT the same itab: an
+				// interface value written through a view whose field has the other named type fails `x.(T)`, `==` and type switches
+				// when read through the original. The declared (named) type is compared.
 				fl = append(fl, J{"name": f.Name(), "type": ts,
 					"off": offs[i], "size": sizes.Sizeof(f.Type())})
 			}
